@@ -38,7 +38,24 @@ MUST_OBSERVE = ["queries_checked"]
 
 
 def _universe(rng: random.Random, n: int) -> list:
-    kind = rng.choice(["int", "str", "tuple", "mixed", "negint"])
+    kind = rng.choice(["int", "str", "tuple", "mixed", "negint", "fsets"])
+    if kind == "fsets":
+        # set-valued keys, each spelled in two insertion orders (equal objects whose repr() may differ: small ints
+        # that collide in the set's table, strings), flat and nested
+        out = []
+        for _ in range(max(1, n // 2)):
+            a = rng.randrange(0, 8)
+            pair = rng.choice([[a, a + 8], [a, a + 16, a + 8], [f"s{a}", f"t{a}"], [a, f"s{a}"]])
+            if rng.random() < 0.4:
+                inner = list(pair)
+                # a sibling that is itself a set: its text can sort between the two spellings of the inner set
+                sib = rng.choice([5, "m", ["<fs>", [rng.randrange(0, 10)]], ["<fs>", [rng.randrange(0, 10)]], ["<fs>", [rng.randrange(0, 20), "k"]]])
+                out.append(["<fs>", [["<fs>", inner], sib]])
+                out.append(["<fs>", [sib, ["<fs>", inner[::-1]]]])
+            else:
+                out.append(["<fs>", list(pair)])
+                out.append(["<fs>", pair[::-1]])
+        return out
     if kind == "int":
         return [rng.randrange(0, 10**6) for _ in range(n)]
     if kind == "negint":
@@ -88,6 +105,11 @@ def _stream(rng: random.Random, uni: list, n: int) -> list:
 
 
 def _item(x):
+    if isinstance(x, list) and len(x) == 2 and x[0] == "<fs>":
+        fs = set()
+        for e in x[1]:  # insertion order as written
+            fs.add(_item(e))
+        return frozenset(fs)
     return tuple(x) if isinstance(x, list) else x
 
 
@@ -424,7 +446,7 @@ def gen_tdigest(rng: random.Random, tier: str) -> dict:
     if vals and rng.random() < 0.3:
         # a few very heavy samples (pre-aggregated input), in arbitrary value order
         for _ in range(rng.randrange(1, 5)):
-            vals[rng.randrange(len(vals))][1] = rng.choice([50, 200, 250, 1000, 10**6])
+            vals[rng.randrange(len(vals))][1] = rng.choice([50, 200, 250, 1000, 3000])
     return {
         "kind": "tdigest",
         "values": vals,
@@ -450,8 +472,25 @@ def run_tdigest(case: dict) -> Result:
         td, other = TDigest(compression=case["compression"]), TDigest(compression=case["compression"])
         feed(td, vals[: case["split"]])
         feed(other, vals[case["split"] :])
+        g0 = case["grid"]
+        before = [other.quantile(i / (g0 - 1)) for i in range(g0)] if case["split"] < len(vals) else None
         td.merge(other)
         shape = "after-merge"
+        if before is not None:
+            # the digest that was merged in keeps being used (a shard rolled up into a global digest): the
+            # receiver's later adds / compressions must not change it
+            feed(td, vals[: max(1, len(vals) // 2)])
+            feed(td, [[v * 3 + 1000.0, c] for v, c in vals[:20]])
+            td.quantile(0.5)
+            after = [other.quantile(i / (g0 - 1)) for i in range(g0)]
+            res.count("queries_checked", g0)
+            if after != before:
+                j = next(k for k in range(g0) if after[k] != before[k])
+                res.add("merge-mutates-argument", comp, "receiver-updated-after-merge", f"quantile({j / (g0 - 1)}) of the merged-in digest changed from {before[j]} to {after[j]} after the receiver was updated")
+            # fresh receiver for the checks below
+            td = TDigest(compression=case["compression"])
+            feed(td, vals[: case["split"]])
+            td.merge(other)
     else:
         td = TDigest(compression=case["compression"])
         feed(td, vals)
